@@ -354,12 +354,7 @@ theorem fixedFrom_ne_panic (c : Cfg) (v : Val) : fixedFrom c v ≠ .panic := by
   | bool b => simp [fixedFrom]
   | str s =>
     unfold fixedFrom
-    cases h : FixedText.fromStr64 c.places c.mult s <;> simp only [h] <;> try simp
-    split
-    · unfold fromExp
-      cases SoftFloat.parse SoftFloat.f64 (FixedText.stripCommas s) <;> simp
-      split <;> simp
-    · simp
+    cases h : FixedText.fromStrX64 c.places c.mult s <;> simp [h]
 
 theorem ite_ne_panic {α : Type} (p : Prop) [Decidable p] (a b : VR α) (ha : a ≠ .panic) (hb : b ≠ .panic) :
     (if p then a else b) ≠ .panic := by
